@@ -30,10 +30,11 @@ def replay_fault(tag, rec):
             'sample': {'argv': solverplay.argv_of(o, '<file>')[2:], 'limit': rec['limit'], 'plan': rec['plan'], 'spec_presents': exp}}
     try:
         argv = solverplay.argv_of(o, path)
-        for policy in ('zeros', 'stale', 'ones'):
+        for policy in ('zeros', 'stale', 'ones', 'zeros after a healthy solve'):
             clock = observe.VirtualClock()
             r = solverplay.run_once(argv, seed=7, getters=('results', 'short', 'long'), plan=plan, durations=durs,
-                                    clock=clock, values_on_fault=policy, timeLimit=(rec['limit'] / 1e6) if rec['limit'] else None, keep_sets=False)
+                                    clock=clock, values_on_fault=policy.split()[0], timeLimit=(rec['limit'] / 1e6) if rec['limit'] else None,
+                                    keep_sets=False, presolve=policy.endswith('healthy solve'))
             st, S = r['construct']
             if st != 'ok':
                 cl.add('C14', 'construct', False, '%s %s' % (st, S))
